@@ -1,8 +1,10 @@
 import DmrVerif.Model.Bits
-import DmrVerif.Gen.TranslRs
+import DmrVerif.Model.Py
 
 /-!
-Line-protocol operations `t.<family>.<fn> <args…>` that evaluate the TRANSLATED definitions (`Gen/Transl*.lean`).
+Line-protocol operations `t.<family>.<fn> <args…>` that evaluate the TRANSLATED definitions (`Gen/Transl*.lean`): the shared
+helpers; the operations of each family are in `Driver/Transl<Family>.lean` (one file per generated file, so that a
+property's driver depends only on the translated source of its own family).
 They exist to validate the translator and the prelude `Model/Py.lean` (both in the trusted base) against CPython on
 every run (`run_transl` of the harness modules).  Canonical forms: ints decimal, bytes hex ("-" = empty), bools `1`/`0`,
 tuples space separated, exceptions `ERR <ClassName>`; `FUEL` / `UNSUPPORTED …` mean the run left the translated domain.
@@ -21,30 +23,3 @@ def sBool (b : Bool) : String := if b then "1" else "0"
 
 end Dmr.Driver.T
 
-namespace Dmr.Driver
-open Dmr Dmr.Driver.T
-
-def translRsOp (op : String) (args : List String) : Option String :=
-  match op, args with
-  | "t.rs.mul", [a, b] => do
-    let a ← a.toInt?
-    let b ← b.toInt?
-    some (out sInt (Transl.Rs.log_multiply a b))
-  | "t.rs.xor", [d, m] => do
-    let d ← hexToBytes d
-    let m ← hexToBytes m
-    some (out sBytes (Transl.Rs.xor_bytes d m))
-  | "t.rs.gen", [d, m] => do
-    let d ← hexToBytes d
-    let m ← hexToBytes m
-    some (out sBytes (Transl.Rs.generate d m))
-  | "t.rs.gen1", [d] => do
-    let d ← hexToBytes d
-    some (out sBytes (Transl.Rs.generate d))
-  | "t.rs.check", [w, m] => do
-    let w ← hexToBytes w
-    let m ← hexToBytes m
-    some (out sBool (Transl.Rs.check w m))
-  | _, _ => none
-
-end Dmr.Driver
